@@ -178,3 +178,14 @@ def run_case(case):
                         "history with the rejected calls deleted diverges at executed op %d: with=%s without=%s" % (
                             i, ta[i] if i < len(ta) else None, tb[i] if i < len(tb) else None))
     return res
+
+
+def enumerate_cases(tier, shard, nshards):
+    mis = [["mis", k, 0, 0, side] for k in range(9) for side in (0, 1)]
+    alphabet = [["rp", 0, 0], ["rg", 0, 0, 0], ["put", 0, 0, 0], ["get", 0], ["cp", 0], ["cg", 0], ["adv", 0]]
+    return gen_store.enumerate_histories(shard, nshards, alphabet=alphabet, max_len=4, extra_ops=mis)
+
+
+def enum_definition(tier):
+    return ("all histories of length 1..4 over {rp, rg, put(delay 0), get, cancel-put, cancel-get, advance 1} plus the 9 misuse kinds x "
+            "{put side, get side}, on 16 subjects (store classes / edges x capacity 1,2; buffer FIFO and LIFO), one actor + one stranger")
